@@ -20,6 +20,7 @@ import GraphiqModel.Proofs.HilbertKron
 import GraphiqModel.Proofs.HilbertDimHistory
 import GraphiqModel.Proofs.HilbertDimKet
 import GraphiqModel.Proofs.HilbertDimReset
+import GraphiqModel.Proofs.HilbertDimMix
 namespace Graphiq.C07
 open Graphiq Graphiq.PRow Graphiq.Tab
 
@@ -1113,6 +1114,31 @@ theorem partial_trace_of_tensor_is_factor (a b t' : Tab) (os : List Bool) (ha : 
       rho b.n (STab.ofTab t') = ptraceList (removalList (a.n + b.n) (rightSites a.n b.n))
         (rho (b.n + (removalList (a.n + b.n) (rightSites a.n b.n)).length) (STab.ofTab (Tab.tensor2 a b)))) :=
   ⟨rho_partialTrace_tensor_left a b t' os ha hb ra rb, rho_partialTrace_tensor_right a b t' os ha hb ra rb⟩
+
+/-- **the site-wise partial trace and the Kronecker product fit together**: `Tr_B (A ⊗ B) = tr(B) · A` for the iterated
+    partial trace over the last block (any `A`, `B`), in particular `Tr_B (ρ(a) ⊗ ρ(b)) = ρ(a)` with the removal list that
+    `partial_trace(tensor([a, b]), keep = qubits of a)` uses -/
+theorem partial_trace_of_kronecker_product {m : Nat} (rem : List Nat) (h : lastBlock m rem)
+    (A : Matrix (Bits m) (Bits m) ℂ) (B : Matrix (Bits rem.length) (Bits rem.length) ℂ) (a b : Tab) (hb : b.Valid) :
+    ptraceList rem (kronB A B) = Matrix.trace B • A ∧
+    lastBlock a.n (removalList (a.n + b.n) (List.range a.n)) ∧
+    ptraceList (removalList (a.n + b.n) (List.range a.n))
+      (rho (a.n + (removalList (a.n + b.n) (List.range a.n)).length) (STab.ofTab (Tab.tensor2 a b)))
+      = rho a.n (STab.ofTab a) :=
+  ⟨ptraceList_kronB rem h A B, lastBlock_removalList a.n b.n, ptrace_tensor_state a b hb⟩
+
+/-- **what `partial_trace` returns when the traced-out qubits are entangled with the kept ones**: always a pure
+    stabilizer state (the reduced state of the post-measurement state); the true, mixed reduced state `Tr_rem ρ(t)` is the
+    uniform mixture of these answers over the outcome choices (`mixGo`), for every valid tableau and every removal list -/
+theorem reduced_state_is_mixture_of_partial_trace_results (rem : List Nat) (m : Nat) (t : Tab)
+    (hn : t.n = m + rem.length) (hv : t.Valid) (hr : t.StabReal) (hpw : rem.Pairwise (· > ·))
+    (hlt : ∀ q, q ∈ rem → q < t.n) :
+    ptraceList rem (rho (m + rem.length) (STab.ofTab t)) = mixGo m rem t :=
+  ptraceList_eq_mixture rem m t hn hv hr hpw hlt
+
+example : ptraceList [1] (rho (1 + [1].length) (STab.ofTab bell)) = mixGo 1 [1] bell :=
+  reduced_state_is_mixture_of_partial_trace_results [1] 1 bell rfl bell_valid bell_real
+    (List.pairwise_singleton _ _) (by intro q hq; simp only [List.mem_singleton] at hq; subst hq; decide)
 
 /-- `partial_trace` never hits an assertion on a valid tableau -/
 theorem partial_trace_total (t : Tab) (keep : List Nat) (os : List Bool) (hv : t.Valid) (hr : t.StabReal) :
